@@ -823,6 +823,10 @@ func (w *worker) Run(ctx context.Context, req taskRunRequest, reply *taskRunRepl
 	}
 	task.state = TaskRunning
 	task.Unlock()
+	// The scope holds the metrics of this run of the task only; an
+	// earlier run (whose output was lost or discarded, or which failed)
+	// must not be counted again.
+	task.Scope.Reset(nil)
 	// Gather inputs from the bigmachine cluster, dialing machines
 	// as necessary.
 	var (
